@@ -372,13 +372,18 @@ def check_step(drive, rec, i, out, info, mem, state):
     else:
         ev = res['event']
         if consume:
-            if ev is None or ev['data'].get('uid') != E['uid'] or ev['name'] != E['name']:
+            if ev is None or ev['data'].get('uid') != E['uid'] or ev['name'] != E['name'] \
+                    or (ev['cls'] == 'InternalEvent') != (E['kind'] == 'int'):
                 out.append(V('C05', 'wrong-event-consumed', i, consumed=ev, expected=dict(E)))
                 return 'abort'
             if E['due'] > res['time']:
                 out.append(V('C05', 'consumed-before-due', i, due=E['due'], time=res['time']))
             qm.pop(E)
             info.label('event consumed')
+            if E['kind'] == 'ext' and any(p_['name'] == E['name'] and p_['due'] > T
+                                          for p_ in qm.q['int']):
+                info.label('external event consumed while an internal one of that name is '
+                           'pending, not yet due')
             if not fired:
                 info.label('event consumed by empty step')
         else:
@@ -437,15 +442,85 @@ def register_sends(drive, rec, T):
     """feed the queue model with the internal events the executed fragments sent"""
     for e in sends_from_log(drive.by, rec['log']):
         if e['cls'] == 'InternalEvent':
-            drive.qm.push('int', T + e['data'].get('delay', 0), e['data']['uid'], e['name'])
+            drive.qm.push('int', T + e['data'].get('delay', 0), e['data'].get('uid'), e['name'])
+
+
+FAULT_EXC = {'inv': ('InvariantError',), 'ipre': ('PreconditionError',),
+             'ipost': ('PostconditionError',), 'iboom': ('CodeEvaluationError',)}
+
+
+def resync(d, mem, state):
+    """after a step that raised: take the queues and the history memories over from the
+    interpreter (they are what the next steps start from)"""
+    it, qm, tree = d.interp, d.qm, d.tree
+    for kind, q in (('int', it._internal_queue), ('ext', it._external_queue)):
+        new = []
+        for due, ev in q:
+            qm.seq += 1
+            new.append({'kind': kind, 'due': due, 'seq': qm.seq, 'uid': ev.data.get('uid'),
+                        'name': ev.name})
+        qm.q[kind] = new
+    mem.clear()
+    for deep_first in (True, False):
+        for h, names in it._memory.items():
+            p = tree.parent.get(h)
+            if p is None:
+                continue
+            if (tree.kind[h] == 'deep') == deep_first and (deep_first or p not in mem):
+                mem[p] = set(names)
+    if not it.configuration and it.final:
+        state['was_final'] = True
 
 
 def run_core(case, build=None, epilogue=False, want=None):
     """Run the case; returns (violations, info, records)."""
     spec = probes.instrument(case['spec'])
+    # "ambient" features that must not change what a step does: in a quarter of the cases the
+    # chart runs with contract checking on (conditions that hold, reading __old__ and sent()),
+    # in another quarter with a property statechart bound and a second interpreter bound to
+    # receive its internal events
+    ambient = case.get('ambient', {1: 'contracts', 2: 'monitored'}.get(len(case['ops']) % 4))
+    # injected faults (see gen.faults): steps that raise but leave a legal configuration behind;
+    # the model is re-synchronised from the interpreter and the following steps are checked in full
+    faults = {int(i): k for i, k in case.get('faults') or []}
+    if any(k in ('inv', 'ipre', 'ipost') for k in faults.values()):
+        ambient = 'contracts'
+    if ambient == 'contracts':
+        for x in spec['states']:
+            x['pre'] = list(x.get('pre') or []) + ['v >= 0']
+            x['inv'] = list(x.get('inv') or []) + [
+                "(__old__.v <= v or sent('zz')) and not fv.get('inv')"]
+            x['post'] = list(x.get('post') or []) + ['__old__.v <= v']
+        for t in spec['transitions']:
+            t['pre'] = list(t.get('pre') or []) + ["v >= 0 and not received('zz')"]
+            t['inv'] = list(t.get('inv') or []) + ['__old__.v <= v']
+            t['post'] = list(t.get('post') or []) + ["__old__.v < v and not sent('zz')"]
+            if t.get('target') is None:
+                t['pre'].append("fv.get('int') != 'pre'")
+                t['post'].append("fv.get('int') != 'post'")
+    if 'iboom' in faults.values():
+        for t in spec['transitions']:
+            if t.get('target') is None:
+                t['action'] = (t.get('action') or 'pass') + \
+                    "\nif fv.get('int') == 'boom':\n    raise ValueError('boom')"
     sc = build(spec) if build else None
-    d = Drive(spec, sc=sc, record_meta=True)
+    d = Drive(spec, sc=sc, record_meta=True, ignore_contract=ambient != 'contracts')
     out, info, mem, state = [], Info(), {}, {}
+    if ambient == 'contracts':
+        info.label('runs with contract checking on (conditions hold)')
+    if ambient == 'monitored':
+        from sismic.interpreter import Interpreter
+        from sismic.model import Statechart, CompoundState, BasicState, Transition
+        psc = Statechart('observer')
+        psc.add_state(CompoundState('r', initial='a'), None)
+        psc.add_state(BasicState('a'), 'r')
+        psc.add_state(BasicState('b'), 'r')
+        for n in ('step started', 'event consumed', 'state entered', 'event sent'):
+            psc.add_transition(Transition('a', 'b', event=n))
+            psc.add_transition(Transition('b', 'a', event=n))
+        d.interp.bind_property_statechart(psc)
+        d.interp.bind(Interpreter(psc))
+        info.label('runs with a property statechart and a bound interpreter')
     recs = []
     ntr = len(spec['transitions'])
     # in a quarter of the cases a second ("shadow") interpreter over the very same Statechart
@@ -471,8 +546,26 @@ def run_core(case, build=None, epilogue=False, want=None):
         elif op[0] == 'adv':
             d.advance(op[1])
         elif op[0] == 'step':
+            fault = faults.get(i)
+            fv = d.ctx['fv']
+            fv.clear()
+            if fault == 'inv':
+                fv['inv'] = True
+            elif fault:
+                fv['int'] = fault[1:]
             rec = d.step(op[1])
+            fv.clear()
             recs.append(rec)
+            if fault and rec['exc'] in FAULT_EXC.get(fault, ()):
+                info.label('fault step (%s): %s' % (fault, rec['exc']))
+                bad = R.legal(d.tree, rec['config_after']) if rec['config_after'] else None
+                if bad:
+                    # by construction these faults strike where the configuration is legal
+                    out.append(V('*', 'fault-left-illegal-configuration', i, fault=fault,
+                                 problems=bad, configuration=rec['config_after']))
+                    break
+                resync(d, mem, state)
+                continue
             r = check_step(d, rec, i, out, info, mem, state)
             if r == 'abort':
                 break
@@ -512,7 +605,7 @@ def run_epilogue(d, i, out, info, mem, state, recs):
     left = d.qm.pending()
     if left:
         out.append(V('C05', 'events-never-consumed', i, left=[dict(e) for e in left]))
-    uids = [e['uid'] for e in d.qm.consumed]
+    uids = [e['uid'] for e in d.qm.consumed if e['uid'] is not None]
     if len(set(uids)) != len(uids):
         out.append(V('C05', 'event-consumed-twice', i, uids=uids))
 
